@@ -252,31 +252,69 @@ ORDER_SENSITIVE_MODULES = ["atsim.potentials.config._eam_potential_builder", "at
                            "atsim.potentials.pair_tabulation", "atsim.potentials._lammps_writeTABLE", "atsim.potentials._dlpoly_writeTABLE"]
 
 
+def _set_uses_ok(tree):
+  """set()/frozenset() results are harmless when they are only ever tested for membership, sorted, or
+  combined into other such sets: returns the list of (lineno, reason) where that cannot be established."""
+  bad = []
+  parents = {}
+  for node in ast.walk(tree):
+    for ch in ast.iter_child_nodes(node):
+      parents[ch] = node
+
+  def target_name(call):
+    par = parents.get(call)
+    if isinstance(par, ast.Assign) and len(par.targets) == 1:
+      t = par.targets[0]
+      if isinstance(t, ast.Name):
+        return t.id
+      if isinstance(t, ast.Attribute):
+        return t.attr
+    if isinstance(par, ast.Return):
+      return "<returned>"
+    return None
+
+  names = set()
+  for node in ast.walk(tree):
+    if isinstance(node, (ast.Set, ast.SetComp)):
+      bad.append((node.lineno, "set display/comprehension"))
+    if isinstance(node, ast.Call) and isinstance(node.func, ast.Name) and node.func.id in ("set", "frozenset"):
+      n = target_name(node)
+      if n is None:
+        par = parents.get(node)
+        # set(...) used directly as the right operand of `in`, or inside sorted(...)
+        if isinstance(par, ast.Compare) or (isinstance(par, ast.Call) and isinstance(par.func, ast.Name) and par.func.id == "sorted"):
+          continue
+        bad.append((node.lineno, "%s() whose result is not bound to a name" % node.func.id))
+      else:
+        names.add(n)
+  for node in ast.walk(tree):
+    nm = node.id if isinstance(node, ast.Name) else (node.attr if isinstance(node, ast.Attribute) else None)
+    if nm in names and isinstance(getattr(node, "ctx", None), ast.Load):
+      par = parents.get(node)
+      ok = False
+      if isinstance(par, ast.Compare) and all(isinstance(o, (ast.In, ast.NotIn)) for o in par.ops) and node in par.comparators:
+        ok = True
+      if isinstance(par, ast.Call) and isinstance(par.func, ast.Name) and par.func.id in ("sorted", "len") and node in par.args:
+        ok = True
+      if isinstance(par, ast.Attribute) and par.attr in ("add", "update", "discard"):
+        ok = True
+      if isinstance(par, ast.Return):
+        ok = True    # returned sets are bound (and checked) at the call site's name
+      if not ok:
+        bad.append((node.lineno, "set '%s' used other than for membership/sorted()" % nm))
+  return bad
+
+
 def scan_for_set_syntax():
-  """set displays / comprehensions / frozenset / set() calls outside the stubbed module that feed an iteration"""
+  """sets outside the stubbed module whose iteration order could reach the output"""
   found = []
   for mn in ORDER_SENSITIVE_MODULES:
+    if mn in SET_MODULES:
+      continue
     mod = sys.modules.get(mn) or __import__(mn, fromlist=["x"])
     tree = ast.parse(inspect.getsource(mod))
-    for node in ast.walk(tree):
-      if isinstance(node, (ast.Set, ast.SetComp)):
-        found.append("%s:%d set display/comprehension" % (mn, node.lineno))
-      if isinstance(node, ast.Call) and isinstance(node.func, ast.Name) and node.func.id in ("set", "frozenset") and mn not in SET_MODULES:
-        # allowed when the only consumer is sorted()/membership: checked by hand for the modules below
-        if mn == "atsim.potentials._dlpoly_writeTABEAM":
-          continue   # 'pairs = set()' is consumed through sorted(pairs) only (re-checked below)
-        found.append("%s:%d %s() call" % (mn, node.lineno, node.func.id))
-  tree = ast.parse(inspect.getsource(sys.modules["atsim.potentials._dlpoly_writeTABEAM"]))
-  for fn_ in ast.walk(tree):
-    if isinstance(fn_, ast.FunctionDef) and fn_.name == "_writePairPotentials":
-      uses = []
-      for node in ast.walk(fn_):
-        if isinstance(node, ast.Call) and any(isinstance(a, ast.Name) and a.id == "pairs" for a in node.args):
-          uses.append(node.func.id if isinstance(node.func, ast.Name) else "?")
-        if isinstance(node, (ast.For, ast.comprehension)) and isinstance(node.iter, ast.Name) and node.iter.id == "pairs":
-          uses.append("iterated")
-      if uses != ["sorted"]:
-        found.append("atsim.potentials._dlpoly_writeTABEAM: the set 'pairs' is consumed by %r, not through sorted() only" % (uses,))
+    for (ln, why) in _set_uses_ok(tree):
+      found.append("%s:%d %s" % (mn, ln, why))
   return found
 
 
@@ -328,7 +366,12 @@ def targets_for(model):
 
 def _write_bytes(tab):
   if tab.target.startswith("excel"):
-    wb = tab.workbook
+    # the file actually written, read back with openpyxl (the container's clock fields are outside the claim)
+    import openpyxl
+    buf = io.BytesIO()
+    tab.write(buf)
+    buf.seek(0)
+    wb = openpyxl.load_workbook(buf)
     out = []
     for ws in wb.worksheets:
       out.append((ws.title, [[c.value for c in row] for row in ws.iter_rows()]))
